@@ -85,10 +85,11 @@ def run_c01(tier):
     nh = common.extract_replay(r["log"], hist)
     os.remove(r["log"])
     # long histories over two calculators with different settings on the same map (every interleaving, incl. lockstep), per mode
-    for lm in ("m2", "m1", "m3", "m4"):
+    # ... and the histories over ONE map value overwritten in place by maps of the same size ("slot")
+    for lm in ("m2", "m1", "m3", "m4", "slot"):
         with open(cfgp, "w") as f:
             f.write('CONSTANTS\n  MaxLen = %d\n  Wide = FALSE\n  Lockstep = "%s"\nINIT Init\nNEXT Next\nINVARIANT KeysFunctional\nINVARIANT Printer\nCHECK_DEADLOCK FALSE\n' % (
-                (6 if lm == "m2" else 4) if tier == "quick" else 10, lm))
+                (3 if tier == "quick" else 4) if lm == "slot" else ((6 if lm == "m2" else 4) if tier == "quick" else 10), lm))
         r = common.run_tlc("MC_Session", cfgp, workers=4 if tier == "quick" else 12, timeout=3600, name="MC_Session_lock_%s_%s" % (lm, tier))
         res.add_tlc(r)
         os.remove(cfgp)
